@@ -103,6 +103,9 @@ def run_tensor(R, pid):
     R.trust('C07 contract of the finite-difference layer: d3x/d3y/d3z = exact partial derivative up to O(h^p) (proved by the C07 check)')
     for f in cfg['funcs']:
         function_obligations(R, W, f, scens, npoints=npts)
+    # what a single generic point cannot show: memory layout of the inputs, extent of the grid (real AurelCore, bounded)
+    from props.regimes import regime_obligations
+    regime_obligations(R, list(cfg['funcs']) + list(cfg.get('chain', [])))
     for s in scens[:1]:
         helper_obligations(R, W, s, only=set(cfg.get('helpers', [])), npoints=npts)
     # a helper method that tests the cache ('X' in self.data) has more than one path: every such helper is also run in the
